@@ -188,6 +188,14 @@ class Interp(object):
             return self.call_type(f, args, kwargs)
         if isinstance(f, (classmethod, staticmethod)):
             raise Unsupported("calling a raw classmethod/staticmethod object")
+        if not isinstance(f, (types.BuiltinFunctionType, types.BuiltinMethodType, types.FunctionType, types.MethodType)):
+            # an instance of a class whose __call__ is interpreted code
+            for k in type(f).__mro__:
+                d = k.__dict__.get("__call__")
+                if d is not None:
+                    if isinstance(d, IFunc) or (isinstance(d, types.FunctionType) and self.should_interpret(d)):
+                        return self.call(d, (f,) + tuple(args), kwargs)
+                    break
         # native call: only with concrete operands, except for callables that are
         # known not to inspect their operands
         if not self.tolerates_sym(f, args):
